@@ -526,7 +526,7 @@ PROPS["C02"]["tags"] = PROPS["C02"]["tags"] + ["corr"]
 
 def gen_C06(r, tier):
     out = []
-    tuple_styles = [('unimod', 25), ('bigcol', 15), ('ulp', 20), ('circle', 15), ('mag', 15), ('grid', 10)]
+    tuple_styles = [('unimod', 22), ('bigcol', 12), ('ulp', 18), ('circle', 12), ('mag', 12), ('grid', 8), ('bigcircle', 16)]
     for i in range(n_cases(tier, 150, 2000)):
         scalar = "f32" if r.chance(0.25) else "f64"
         c = Case("t%d" % i, "dt", scalar, "last")
@@ -586,6 +586,8 @@ def gen_C07(r, tier):
     out += gen_bulk(q, q)(r, "quick")
     out += gen_lattice_cdt(q, q, qops=("canc", "tryc", "confv"))(r, "quick")
     out += gen_wheel(q // 3, q // 3)(r, "quick")
+    out += gen_C20(r, "quick")[:q]
+    out += gen_C13(r, "quick")[:q]
     out += PROPS["C05"]["gen"](r, "quick")[:q * 2]
     for k, c in enumerate(out):
         c.cid = "z%d" % k
@@ -770,3 +772,68 @@ PROPS.update({
              rule=STATE_RULE + " on well-conditioned inputs (small integer coordinates and midpoints); barycentric weights (DT and CDT) and natural-neighbour weights (DT) for query points on vertices, edge interiors, hull edges, inside faces, next to and outside the hull.",
              theorems="Props/C19.v", assumptions=["weights are decided within a relative tolerance of 1e-8 (f32: 5e-4): non-negativity, sum, reproduction of the query position"]),
 })
+
+def gen_hier_stress(quick, thorough, kinds=("dt", "cdt")):
+    """hint-generator stress: grow / shrink to exactly 0, 1 or 2 vertices / regrow past multiples of the branch factor, re-insert
+    removed positions, remove index 0, locate after every phase; hierarchy generators only"""
+    def g(r, tier):
+        out = []
+        for i in range(n_cases(tier, quick, thorough)):
+            kind = r.choice(list(kinds))
+            hint = r.choice(["h2", "h3", "h16", "h2", "h3"])
+            c = Case("y%d" % i, kind, "f64", hint)
+            c.meta = {"style": "hier", "kind": kind, "scalar": "f64", "hint": hint}
+            bf = {"h2": 2, "h3": 3, "h16": 16}[hint]
+            used = set()
+            live = []           # positions in index order (swap-remove semantics mirrored here)
+            removed = []
+            d = 1
+            def fresh():
+                while True:
+                    p = (float(r.range(-9, 9)), float(r.range(-9, 9)))
+                    if p not in used:
+                        used.add(p)
+                        return p
+            def ins(p):
+                nonlocal d
+                c.ins(p[0], p[1], d); d += 1
+                if p not in live:
+                    live.append(p)
+            def rm(idx):
+                p = live[idx]
+                c.add("rm", "V%d" % idx)
+                live[idx] = live[-1]
+                live.pop()
+                removed.append(p)
+            for _ in range(r.range(1, 4)):
+                target = r.choice([bf, bf + 1, 2 * bf, 2 * bf + 1, bf * bf + 1, r.range(2, 3 * bf)])
+                target = min(target, 40)
+                while len(live) < target:
+                    ins(r.choice(removed) if removed and r.chance(0.3) and r.choice(removed) not in live else fresh())
+                c.add("loc", bits(float(r.range(-9, 9))), bits(float(r.range(-9, 9))))
+                k = r.choice([0, 1, 1, 2, 3])
+                while len(live) > k:
+                    rm(0 if r.chance(0.5) else r.below(len(live)))
+                c.add("loc", bits(float(r.range(-9, 9))), bits(float(r.range(-9, 9))))
+            while len(live) < r.range(2, 2 * bf + 2):
+                ins(r.choice(removed) if removed and r.chance(0.5) and r.choice(removed) not in live else fresh())
+            if live:
+                rm(0)
+            for _ in range(4):
+                c.add("loc", bits(float(r.range(-9, 9))), bits(float(r.range(-9, 9))))
+                if live and r.chance(0.5):
+                    rm(r.below(len(live)))
+            out.append(c)
+        return out
+    return g
+
+PROPS["C09"]["gen"] = gen_union(PROPS["C09"]["gen"], gen_hier_stress(1000, 6000))
+PROPS["C05"]["gen"] = gen_union(PROPS["C05"]["gen"], gen_hier_stress(800, 5000))
+PROPS["C07"]["gen"] = gen_union(PROPS["C07"]["gen"], gen_hier_stress(1000, 6000))
+PROPS["C11"]["gen"] = gen_union(PROPS["C11"]["gen"], gen_hier_stress(800, 5000))
+PROPS["C11"]["events"] = True
+for _p in ("C13", "C20", "C17", "C18", "C19"):
+    PROPS[_p]["events"] = True
+
+PROPS["C09"]["model"] = True
+PROPS["C09"]["tags"] = PROPS["C09"]["tags"] + ["corr"]
